@@ -78,7 +78,10 @@ theorem bind_ok {α β} {x : Outcome α} {f : α → Outcome β} {v : β} (h : (
   | fuel => simp [bind, Outcome.bind] at h
 
 theorem Pay.parseTag {tb : Tables} {r r' : R} {t : Tag} (h : parseTag tb r t = .ok r') : Pay 0 r r' :=
-  (FrO.parseTag tb r t r' h).pay
+  by
+    obtain ⟨r0, h0, rfl⟩ := parseTag_ok h
+    have := (FrO.parseTag0 tb r t r0 h0).pay
+    exact ⟨this.pos, this.mono, this.w⟩
 
 theorem Pay.entriesLoop (tb : Tables) (ifd : Ifd) (buf : Bytes) (n i : Nat) (r r' : R)
     (h : entriesLoop tb ifd buf n i r = .ok r') : Pay (4 * n) r r' := by
@@ -154,7 +157,7 @@ theorem readTagValue0_ok (r : R) (t : Tag) (h : (readTagValue0 r t).err = none) 
     Pay (-((readTagValue0 r t).buf.length : Int)) r (readTagValue0 r t).r := by
   unfold Exif.readTagValue0 at h ⊢
   simp only [] at h ⊢
-  have h0 : Fr r (if t.isEmbedded then { r with hazard := true } else r) := by split <;> exact ⟨rfl, rfl, Nat.le_refl _⟩
+  have h0 : Fr r (if t.isEmbedded then { r with hazard := true } else r) := by split <;> exact ⟨rfl, rfl, Nat.le_refl _, rfl⟩
   generalize (if t.isEmbedded then { r with hazard := true } else r) = r0 at h0 h ⊢
   have h1 := Fr.discard r0 ((t.off : Int) - r0.po)
   cases hd : Exif.discard r0 ((t.off : Int) - r0.po) with
